@@ -50,7 +50,8 @@ Definition push_integer_payload (n : Z) : bytes :=
   if Z.eqb (Z.land n (Z.shiftl 1 (Z.of_nat nb * 8 - 1))) 0 then ib else ib ++ [0].
 
 Definition push_integer (n : Z) : option bytes :=
-  if n <? 0 then None else op_push_data (push_integer_payload n).
+  (* n = 0 raises too: number_of_bytes is 0 and `1 << -1` is a ValueError (Script.to_bytes never sends 0..16 here) *)
+  if n <=? 0 then None else op_push_data (push_integer_payload n).
 
 Definition tok_to_bytes (t : tok) : option bytes :=
   match t with
